@@ -71,7 +71,7 @@ func checkC16(rep *core.Report) {
 		}
 		fmt.Println("warnings:", an.Warnings)
 	}
-	total, open := reportObligations(rep, r1, an, func(o *obl.Obligation) bool { return o.Kind != "K5" }, c16Assumed)
+	total, open := reportObligations(rep, r1, an, func(o *obl.Obligation) bool { return o.Kind != "K12" }, c16Assumed)
 	rep.Extra["obligations_total"] = total
 	rep.Extra["obligations_open"] = open
 	all, unknown := externSummary(an)
